@@ -9,6 +9,18 @@ ROOT = os.path.dirname(os.path.dirname(os.path.abspath(__file__)))
 
 # id -> (level, technique, text, note, design_ref)
 CHECKS = {
+    "C03": (
+        "fault_enumeration",
+        "deterministic simulation with step-indexed fault injection: stop signal / forced cancellation / process kill swept over the loop steps of seeded worker runs",
+        "For each seeded scenario (jobs in different handling phases, graceful period 0..30 s, tasks_limit 1..4) the stop request "
+        "(SIGINT; graceful 0 = forced cancellation one iteration later) and, on Redis, process death are injected before every busy "
+        "loop step of Worker.run() plus a sample of idle steps (thorough: every step for a quarter of the scenarios), on the in-memory, "
+        "Redis and RabbitMQ brokers. Oracle: run() returns in time; per message exactly one place consistent with the recorded "
+        "disposition or 'returned with identical parameters'; nothing in flight; Redis crash recovery judged against each message's "
+        "true take instant + execution timeout.",
+        "Scenarios are sampled; the fault position is enumerated. Trusted: SimLoop = asyncio FIFO semantics; SimRedis/SimRabbit (DESIGN section 4). Two Redis race findings are listed in known_findings.json.",
+        "DESIGN.md section 8 C03",
+    ),
     "C10": (
         "exploration",
         "deterministic simulation: seeded scenarios on a virtual-time asyncio loop; oracle on started executions and broker-side state",
